@@ -86,13 +86,19 @@ func addChildren(r *Identity, ids []*Identity) []*Identity {
 // findIdentityBase returns the resolved identity that is corresponds to the
 // baseStr string in the context of the module/submodule mod.
 func (mod *Module) findIdentityBase(baseStr string) (*resolvedIdentity, []error) {
+	return mod.findIdentityBaseAt(baseStr, mod)
+}
+
+// findIdentityBaseAt is findIdentityBase for the base statement at: errors
+// are reported at the position of that statement.
+func (mod *Module) findIdentityBaseAt(baseStr string, at Node) (*resolvedIdentity, []error) {
 	var base resolvedIdentity
 	var ok bool
 	var errs []error
 
 	basePrefix, baseName := getPrefix(baseStr)
 	rootPrefix := mod.GetPrefix()
-	source := Source(mod)
+	source := Source(at)
 	typeDict := mod.Modules.typeDict
 
 	switch basePrefix {
@@ -198,7 +204,7 @@ func (ms *Modules) resolveIdentities() []error {
 
 			root := RootNode(i.Identity)
 			for _, b := range i.Identity.Base {
-				base, baseErr := root.findIdentityBase(b.asString())
+				base, baseErr := root.findIdentityBaseAt(b.asString(), b)
 
 				if baseErr != nil {
 					errs = append(errs, baseErr...)
